@@ -35,6 +35,14 @@ func NewWeekFromString(yyyyWww string) (Week, error) {
 		if yErr != nil {
 			return nil, errors.New("INVALID_WEEK_PERIOD")
 		}
+		// December 28th always lies in the last week of its year.
+		last, lErr := klog.NewDate(year, 12, 28)
+		if lErr != nil {
+			return nil, errors.New("INVALID_WEEK_PERIOD")
+		}
+		if _, lastWeek := last.WeekNumber(); week > lastWeek {
+			return nil, errors.New("INVALID_WEEK_PERIOD")
+		}
 		for ref.Weekday() != 1 {
 			ref = ref.PlusDays(-1)
 		}
